@@ -104,6 +104,7 @@ def evaluate(ctx, cases):
             else:
                 L = int(r.integers(50, len(x)))
             df = df.copy(); df['rid'] = np.arange(len(df))
+            if c['seed'] % 2 == 0: df = implutil.user_columns(df)          # (columns a user added travel with their cycle, unshifted)
             n_all = len(x)
             if c['L_seed'] % 3 == 0:
                 # SUB-epoching: the table of the first epoch (epoch-relative samples; its last cycle may close exactly on sample L, the length of the
